@@ -1,6 +1,6 @@
 #!/usr/bin/env python3
 """Render seed_matrix.json (tools/seed_matrix.py) into DESIGN.md between the matrix markers and
-record detected_by in seeded/<id>/meta.json.   usage: matrix_to_md.py <seed_matrix.json> [commit]"""
+record detected_by in seeded/<id>/meta.json.   usage: matrix_to_md.py <seed_matrix.json> [commit] [<seed_diagonal.json> <commit2>]"""
 import json, os, re, sys
 ROOT = os.path.dirname(os.path.dirname(os.path.abspath(__file__)))
 m = json.load(open(sys.argv[1]))
@@ -11,6 +11,15 @@ lines = ["<!-- matrix:begin -->", "```", "(quick tier, /verif commit %s)" % comm
 for row in ["baseline"] + sorted(k for k in m if k != "baseline"):
     if row in m:
         lines.append("%-9s %s" % (row, "  ".join(m[row][c] for c in cols)))
+if len(sys.argv) > 4:
+    # the diagonal (every change against the check of its own property) run again at a later commit, new changes included
+    d = json.load(open(sys.argv[3]))
+    lines += ["", "diagonal at /verif commit %s (every change x the check of its own property; X = failing input, x = obligation only, - = silent)" % sys.argv[4]]
+    items = sorted(d.items())
+    for i in range(0, len(items), 10):
+        lines.append("  " + "  ".join("%s:%s" % kv for kv in items[i:i + 10]))
+    lines.append("  caught with a failing input: %d of %d; obligation only: %s; silent: %s" % (
+        sum(1 for v in d.values() if v == "X"), len(d), [k for k, v in items if v == "x"] or "none", [k for k, v in items if v == "-"] or "none"))
 lines += ["```", "<!-- matrix:end -->"]
 p = os.path.join(ROOT, "DESIGN.md")
 s = open(p).read()
@@ -22,7 +31,7 @@ else:
 open(p, "w").write(s)
 for row, v in m.items():
     mp = os.path.join(ROOT, "seeded", row, "meta.json")
-    if os.path.exists(mp):
+    if os.path.exists(mp) and isinstance(v, dict):
         meta = json.load(open(mp))
         meta["detected_by_quick_checks"] = [c for c in cols if v[c] == "X"]
         meta["broken_without_input"] = [c for c in cols if v[c] == "x"]
